@@ -542,7 +542,18 @@ type convRun struct {
 	bufs    []int // read buffer sizes (entryReader)
 	eofWD   bool
 	discard map[int]int // entryReader: message index -> read that many bytes, then Discard()
+	// entryReader: Reader.OnContinuation. contNil: not set; contNoop: set, reads nothing; k >= 1: reads the
+	// first k bytes of every continuation body with io.ReadFull (contAll: the whole body).
+	cont int
 }
+
+const (
+	contNil  = 0
+	contNoop = -1
+	contAll  = 1 << 20
+)
+
+var contModes = []int{contNil, contNoop, 1, 2, 3, contAll}
 
 type convCase struct {
 	Frames  []string    `json:"frames"`
@@ -552,10 +563,11 @@ type convCase struct {
 	Bufs    []int       `json:"read_buffers,omitempty"`
 	EOFWD   bool        `json:"eof_with_data,omitempty"`
 	Discard map[int]int `json:"discard_after,omitempty"`
+	Cont    int         `json:"on_continuation_reads,omitempty"`
 }
 
 func (c convRun) desc() convCase {
-	return convCase{ref.Describe(c.frames), c.server, entryNames[c.entry], c.chunks, c.bufs, c.eofWD, c.discard}
+	return convCase{ref.Describe(c.frames), c.server, entryNames[c.entry], c.chunks, c.bufs, c.eofWD, c.discard, c.cont}
 }
 
 type convStats struct {
@@ -582,6 +594,32 @@ func runConversation(c convRun, st *convStats) string {
 	src.EOFWithData = c.eofWD
 	rec := tx.NewRec()
 	rd := &wsutil.Reader{Source: src, State: state, CheckUTF8: true}
+	// Bytes the OnContinuation handler takes from a continuation body are logged
+	// in stream order together with the bytes Read delivers: the handler runs
+	// when the Reader moves on to that frame, i.e. after everything before it
+	// was delivered. Validity is judged on all bytes of the message, whoever
+	// consumed them.
+	var sink *[]byte
+	if c.cont != contNil {
+		rd.OnContinuation = func(h ws.Header, body io.Reader) error {
+			if c.cont == contNoop {
+				return nil
+			}
+			k := c.cont
+			if int64(k) > h.Length {
+				k = int(h.Length)
+			}
+			p := make([]byte, k)
+			n, err := io.ReadFull(body, p)
+			if err == io.EOF || err == io.ErrUnexpectedEOF {
+				err = nil
+			}
+			if sink != nil {
+				*sink = append(*sink, p[:n]...)
+			}
+			return err
+		}
+	}
 	bufs := c.bufs
 	if len(bufs) == 0 {
 		bufs = []int{512}
@@ -600,6 +638,7 @@ func runConversation(c convRun, st *convStats) string {
 		what := fmt.Sprintf("message %d (op=%#x payload=%x, utf8.Valid=%v)", mi, e.Op, e.Payload, utf8.Valid(e.Payload))
 
 		var data []byte
+		sink = &data
 		var op ws.OpCode
 		var err error // nil: delivered as complete
 		discarded := false
@@ -626,10 +665,12 @@ func runConversation(c convRun, st *convStats) string {
 		read:
 			for i := 0; ; i++ {
 				if partial && len(data) >= limit {
-					if derr := rd.Discard(); derr != nil {
-						return fmt.Sprintf("%s: Discard after %d bytes failed on a valid stream: %v", what, len(data), derr)
+					// Discard walks the remaining frames; a reading OnContinuation handler may
+					// meet the ill-formed bytes there, which is a legitimate rejection. Any
+					// failure is judged below like a failed Read.
+					if err = rd.Discard(); err == nil {
+						discarded = true
 					}
-					discarded = true
 					break read
 				}
 				p := buf[:bufs[i%len(bufs)]]
@@ -819,18 +860,24 @@ func everySplit(t *testing.T, payload []byte, seed int, count *int, st *convStat
 				if withCtl {
 					ctl = map[int][]ref.Frame{0: {ping}, len(cuts) - 1: {pong, ping}}
 				}
-				run := convRun{frames: fragment(op, payload, cuts, server, seed, ctl), server: server, entry: entry}
-				if byteChunks {
-					run.chunks = []int{1}
-					run.bufs = []int{1, 3}
+				modes := contModes[:1]
+				if entry == entryReader && len(cuts) > 0 {
+					modes = contModes
 				}
-				*count++
-				if op == ref.OpText && midSequenceCut(payload, cuts) {
-					noteMessage(payload, cuts, fmt.Sprintf("%s/server=%v/ctl=%v/bytewise=%v", entryNames[entry], server, withCtl, byteChunks))
-				}
-				if msg := runConversation(run, st); msg != "" {
-					hx.Failf(t, run.desc(), "%s", msg)
-					return false
+				for _, cont := range modes {
+					run := convRun{frames: fragment(op, payload, cuts, server, seed, ctl), server: server, entry: entry, cont: cont}
+					if byteChunks {
+						run.chunks = []int{1}
+						run.bufs = []int{1, 3}
+					}
+					*count++
+					if op == ref.OpText && midSequenceCut(payload, cuts) {
+						noteMessage(payload, cuts, fmt.Sprintf("%s/server=%v/ctl=%v/bytewise=%v/oncont=%d", entryNames[entry], server, withCtl, byteChunks, cont))
+					}
+					if msg := runConversation(run, st); msg != "" {
+						hx.Failf(t, run.desc(), "%s", msg)
+						return false
+					}
 				}
 			}
 		}
@@ -967,6 +1014,9 @@ func TestMessageRandom(t *testing.T) {
 			eofWD:  rapid.Bool().Draw(t, "eofwd"),
 		}
 		seed := rapid.IntRange(0, 255).Draw(t, "keyseed")
+		if entry == entryReader {
+			run.cont = rapid.SampledFrom(contModes).Draw(t, "oncontinuation")
+		}
 		hx.Eval()
 		valid := utf8.Valid(payload)
 		mid := midSequenceCut(payload, cuts)
@@ -985,12 +1035,15 @@ func TestMessageRandom(t *testing.T) {
 				}
 				hx.Class(fmt.Sprintf("message/random/%s/text/%s/valid=%v/%s", entryNames[entry], kind, valid, out))
 				hx.Class(fmt.Sprintf("message/random/mid-sequence-cut=%v/ctl=%v/chunks=%s", mid, len(ctl) > 0, gen.ChunkClass(run.chunks)))
+				if entry == entryReader && len(cuts) > 0 {
+					hx.Class(fmt.Sprintf("message/random/Reader/on-continuation=%d/valid=%v", run.cont, valid))
+				}
 			} else if !valid {
 				hx.Class("message/random/binary-with-invalid-utf8/delivered")
 			}
 		}
 		if hasMultibyte(payload) && (mid || gen.SmallChunk(run.chunks)) {
-			noteMessage(payload, cuts, fmt.Sprintf("%s/server=%v/chunks=%v", entryNames[entry], server, run.chunks))
+			noteMessage(payload, cuts, fmt.Sprintf("%s/server=%v/chunks=%v/oncont=%d", entryNames[entry], server, run.chunks, run.cont))
 		}
 	})
 }
@@ -1034,6 +1087,16 @@ func TestConversationRandom(t *testing.T) {
 				}
 			}
 		}
+		if run.entry == entryReader {
+			// Discard() skips bytes past the validator, so a handler that reads continuation
+			// bodies through the validator is only combined with messages read completely
+			// (what the validator sees after a Discard is outside the statement).
+			modes := contModes
+			if len(run.discard) > 0 {
+				modes = contModes[:2]
+			}
+			run.cont = rapid.SampledFrom(modes).Draw(t, "oncontinuation")
+		}
 		hx.Eval()
 		var st convStats
 		if msg := runConversation(run, &st); msg != "" {
@@ -1042,8 +1105,8 @@ func TestConversationRandom(t *testing.T) {
 		hx.Class(fmt.Sprintf("conversation/%s/messages=%d/delivered-before-the-end=%v/discarded=%v/rejected=%v",
 			entryNames[run.entry], nmsg, st.delivered > 0, st.discarded > 0, st.rejectedEarly+st.rejectedAtEnd > 0))
 		if st.delivered+st.discarded >= 1 && nmsg >= 2 && ntext >= 1 {
-			hx.NonTrivial(hx.Hash("conv", ref.Shape(frames), wireHash(frames), fmt.Sprint(run.discard), run.entry), func() interface{} {
-				return map[string]interface{}{"kind": "conversation", "frames": ref.Describe(frames), "entry": entryNames[run.entry], "discard_after": run.discard}
+			hx.NonTrivial(hx.Hash("conv", ref.Shape(frames), wireHash(frames), fmt.Sprint(run.discard), run.entry, run.cont), func() interface{} {
+				return map[string]interface{}{"kind": "conversation", "frames": ref.Describe(frames), "entry": entryNames[run.entry], "discard_after": run.discard, "on_continuation_reads": run.cont}
 			})
 		}
 	})
